@@ -16,15 +16,15 @@ HERE = os.path.dirname(os.path.dirname(os.path.abspath(__file__)))
 MUTANTS = {
     "C08": [
         ("loop-min", "src/pdsh/dsh.c", "            if (t[i].rc > rc)\n", "            if (t[i].rc < rc)\n"),
-        ("loop-skips-first", "src/pdsh/dsh.c", "        for (i = 0; t[i].host != NULL; i++) {\n            if (t[i].state == DSH_FAILED)",
-         "        for (i = 1; t[i].host != NULL; i++) {\n            if (t[i].state == DSH_FAILED)"),
+        ("loop-skips-first", "src/pdsh/dsh.c", "        for (i = 0; t[i].host != NULL; i++) {\n            if (t[i].state == DSH_FAILED",
+         "        for (i = 1; t[i].host != NULL; i++) {\n            if (t[i].state == DSH_FAILED"),
         ("rc-failed-253", "src/pdsh/opt.h", "#define RC_FAILED\t254", "#define RC_FAILED\t253"),
         ("destroy-overrides-marker", "src/pdsh/dsh.c", "    rv = rcmd_destroy (a->rcmd);\n    if ((a->rc == 0) && (rv > 0))",
          "    rv = rcmd_destroy (a->rcmd);\n    if (rv > 0)"),
         ("k-ignores-rc", "src/pdsh/dsh.c", "    if (a->kill_on_fail && ((a->state == DSH_FAILED) || (a->rc > 0))) {",
          "    if (a->kill_on_fail && (a->state == DSH_FAILED)) {"),
         ("refused-exit0", "src/pdsh/main.c", "    } else {\n        retval = 1;", "    } else {\n        retval = 0;"),
-        ("rc-7bit", "src/pdsh/dsh.c", "        ret = atoi(p);", "        ret = atoi(p) & 0x7f;"),
+        ("rc-7bit", "src/pdsh/dsh.c", "        ret = atoi(p + strlen(RC_MAGIC));", "        ret = atoi(p + strlen(RC_MAGIC)) & 0x7f;"),
         ("raw-wait-status", "src/modules/execcmd.c", "    return (WEXITSTATUS (status));", "    return (status);"),
         ("timeout-counts-done", "src/pdsh/dsh.c", "                    continue; /* interrupted by spurious signal */\n\n                result = DSH_FAILED;",
          "                    continue; /* interrupted by spurious signal */\n"),
@@ -33,18 +33,23 @@ MUTANTS = {
         ("wait-nohang-poll", "src/common/pipecmd.c", "    if (waitpid (p->pid, &status, 0) < 0)\n",
          "    { int i_, r_ = 0; for (i_ = 0; i_ < 50 && (r_ = waitpid (p->pid, &status, WNOHANG)) == 0; i_++) usleep (10000);\n"
          "      if (r_ == 0) status = 0; }\n    if (0)\n"),
-        ("marker-last-occurrence", "src/pdsh/dsh.c", "        p += strlen(RC_MAGIC);\n        ret = atoi(p);", "        p += strlen(RC_MAGIC);\n        ret = atoi(p + 1);"),
+        ("marker-skips-digit", "src/pdsh/dsh.c", "        ret = atoi(p + strlen(RC_MAGIC));", "        ret = atoi(p + strlen(RC_MAGIC) + 1);"),
+        ("failed-overwrites-again", "src/pdsh/dsh.c", "            if (t[i].state == DSH_FAILED && rc < RC_FAILED)", "            if (t[i].state == DSH_FAILED)"),
+        ("late-line-resets-again", "src/pdsh/dsh.c", "            if (read_rc && strstr (buf, RC_MAGIC))", "            if (read_rc)"),
     ],
     "C18": [
         ("env-after-args", "src/pdsh/main.c", "    opt_env(&opt);\n", "",
          "src/pdsh/main.c", "    opt_args(&opt, argc, argv); /* override with command line           */\n",
          "    opt_args(&opt, argc, argv); /* override with command line           */\n    opt_env(&opt);\n"),
         ("fanout-env-name", "src/pdsh/opt.c", 'getenv("FANOUT")', 'getenv("PDSH_FANOUT")'),
-        ("u-sets-connect", "src/pdsh/opt.c", "            opt->command_timeout = atoi(optarg);", "            opt->connect_timeout = atoi(optarg);"),
+        ("u-sets-connect", "src/pdsh/opt.c", "            if (string_to_int (optarg, &opt->command_timeout) < 0)", "            if (string_to_int (optarg, &opt->connect_timeout) < 0)"),
         ("timeout-check-dropped", "src/pdsh/opt.c", "        if (opt->command_timeout < 0) {", "        if (0) {"),
         ("connect-check-gt", "src/pdsh/opt.c", "        if (opt->connect_timeout < 0) {", "        if (opt->connect_timeout <= 0) {"),
         ("username-off-by-one", "src/pdsh/opt.c", "    if (strlen (src) > maxlen)", "    if (strlen (src) > maxlen + 1)"),
-        ("trailing-garbage-ok", "src/pdsh/opt.c", "    if (errno || (*p != '\\0'))\n        return (-1);", "    if (errno)\n        return (-1);"),
+        ("trailing-garbage-ok", "src/pdsh/opt.c", "(p == val) || (*p != '\\0') || (n < INT_MIN)", "(p == val) || (n < INT_MIN)"),
+        ("range-check-dropped", "src/pdsh/opt.c", " || (n < INT_MIN) || (n > INT_MAX))", ")"),
+        ("fanout-check-dropped", "src/pdsh/opt.c", "        if (opt->fanout < 1) {", "        if (0) {"),
+        ("empty-number-ok", "src/pdsh/opt.c", "    if (errno || (p == val) || ", "    if (errno || "),
         ("rcmd-env-wins", "src/pdsh/opt.c", "        case 'R':\n            opt->rcmd_name = Strdup(optarg);",
          "        case 'R':\n            if (!opt->rcmd_name) opt->rcmd_name = Strdup(optarg);"),
         ("first-f-wins", "src/pdsh/opt.c", "        case 'f':              /* fanout */\n            if (string_to_int (optarg, &opt->fanout) < 0)",
